@@ -5,18 +5,23 @@ spec/C05/Sb31Rom.tla      R-spec: acceptance automaton of the SB 3.1 loader (hea
 spec/C05/Sb31Build.tla    the documented construction as an event generator + a menu of construction mistakes
 spec/C05/Sb31RomMC.tla    MC : automaton fed by Sb31Build - accepts every clean construction, rejects every effective mistake
 spec/C05/Sb31Gen.tla      GEN: TLC enumerates / simulates abstract cases (configuration x command list x data lengths)
+spec/C05/Sb31CfgGen.tla   GEN: the same for the CONFIGURATION entry point (SecureBinary31.load_from_config): how a configuration expresses the
+                          part-common key, the signing keys, the certificate block, numbers and every command kind (harness/c05_cfg.py renders)
 spec/C05/Sb31Obj.tla      I-spec of one SecureBinary31 object exported repeatedly (as built / intended) + history GEN
 spec/C05/Sb31RomTrace.tla TV : batch trace validation of the executor's events against Sb31Rom
 
 Python only DRIVES: it concretises the abstract cases, builds the containers through the real classes
-(SecureBinary31, SecureBinary31Commands, Cmd*, CertBlockV21), exports, and lets the independent executor c05_rom
+(SecureBinary31, SecureBinary31Commands, Cmd*, CertBlockV21) or - configuration lane - renders a configuration dictionary + files
+and calls SecureBinary31.load_from_config, exports, and lets the independent executor c05_rom
 (no spsdk; hashlib + `cryptography` primitives) walk the exported bytes.  TLC decides every trace.
 """
 import hashlib
 import json
 import os
+import time
 from concurrent.futures import ThreadPoolExecutor
 
+import c05_cfg as cfgl
 import c05_rom as rom
 from lib import tlc
 from lib.common import ROOT, Machinery, import_spsdk, rng, say
@@ -132,7 +137,8 @@ def spec_inp(c, waive=()):
 def rom_env(c):
     """What the device is provisioned with (fuses): root-of-trust hash, part-common key, access rights, encryption mode."""
     p = pool()
-    return {"rotkth": p.rotkth(c["curve"], c["nkeys"]), "pck": p.pck[c["pck"]], "rights": c["rights"], "enc": c["enc"]}
+    pck = bytes.fromhex(c["pck_hex"]) if "pck_hex" in c else p.pck[c["pck"]]   # configuration lane: the key the configuration was rendered from
+    return {"rotkth": p.rotkth(c["curve"], c["nkeys"]), "pck": pck, "rights": c["rights"], "enc": c["enc"]}
 
 
 # ------------------------------------------------------------------ the real code
@@ -177,6 +183,8 @@ def build(c):
     from spsdk.utils.crypto.cert_blocks import CertBlockV21
 
     p = pool()
+    if "k" in c:  # configuration lane: rendered into a configuration dictionary + files, built by SecureBinary31.load_from_config
+        return cfgl.build(c, p)
     curve, used = c["curve"], c["used"]
     cb = CertBlockV21(
         root_certs=[p.pub_pem[curve, f"root{i}"] for i in range(c["nkeys"])], ca_flag=not c["isk"], used_root_cert=used,
@@ -198,6 +206,8 @@ def build(c):
 def plan_of(case):
     """Abstract case -> concrete plan {conc, ops}; deterministic in (VERIF_SEED, case)."""
     r = rng(PROP, "case", json.dumps(case, sort_keys=True))
+    if "k" in case:
+        return {"case": case, "conc": cfgl.concretise(case, r), "ops": [{"op": op} for op in case["hist"]]}
     c = concretise(case, r)
     c["via_set"] = r.random() < 0.3
     ops = []
@@ -276,29 +286,43 @@ def clause_of(t, matched):
         exp = t["inp"]["cmds"][i - 1]["t"] if 1 <= i <= len(t["inp"]["cmds"]) else 0
         return f"Cmd/{CMD_NAMES.get(exp, 'unexpected-extra-command')}"
     if k in ("BuilderRefused", "ExportRefused"):
+        if "k" in t["case"]:
+            om = cfgl.omitted_optional(t["case"])
+            exc = ev["exc"] + (":" + "".join(ch for ch in ev["msg"] if ch.isalnum() or ch == "_")[:40] if ev["exc"] == "KeyError" else "")  # the key that was missed
+            return f"{k}/{exc}/" + ("optional-keys-omitted:" + "+".join(CMD_NAMES[x] for x in om) if om else "all-keys-given")
         return f"{k}/{ev['exc']}"
+    kform = f"-{t['case']['k']['pckForm']}-{t['case']['k']['pckVal']}" if "k" in t["case"] else ""
     if k == "Section":
-        cfg = f"sha{8 * t['case']['curve']}-pck{t['case']['pck']}" if t["inp"]["enc"] else "plain"
+        cfg = f"sha{8 * t['case']['curve']}-pck{t['case']['pck']}{kform}" if t["inp"]["enc"] else "plain"
         if ev["uid"] != 1 or ev["type"] != 1:
             return f"Section/header-not-found-after-decryption/{cfg}"
         if 16 + ev["len"] > ev["streamLen"]:
             return "Section/longer-than-the-data-blocks"
         return "Section/block-count"
     if k == "DeriveKdk":
-        return f"DeriveKdk/sha{8 * t['case']['curve']}-pck{t['case']['pck']}"
+        return f"DeriveKdk/sha{8 * t['case']['curve']}-pck{t['case']['pck']}{kform}"
     false = sorted(f for f, x in ev.items() if x is False and f not in ("ca", "hasUserData", "last", "enc", "hasX", "padZero", "rsvZero", "dataPadZero", "tailZero"))
     return k + ("/" + false[0] if false else "")
 
 
 def finding_key(t, matched):
-    cls = "build" if t["k"] == 1 else f"history/export#{t['k']}"
+    if "k" in t["case"]:  # configuration lane
+        cls = "config" if t["k"] == 1 else f"config/export#{t['k']}"
+    else:
+        cls = "build" if t["k"] == 1 else f"history/export#{t['k']}"
     return f"C05/{cls}/{clause_of(t, matched)}"
 
 
 def describe(t, matched):
     c = t["case"]
     ev = t["ev"][min(matched, len(t["ev"]) - 1)]
-    return (f"export #{t['k']} of a container (P-{c['curve'] * 8}, {c['nkeys']} root keys, used {c['used']}, isk={c['isk']}, pck={c['pck']}, rights={c['rights']}, "
+    how = ""
+    if "k" in c:
+        k = c["k"]
+        how = (f" built by SecureBinary31.load_from_config [family {k['fam']}, part-common key as {k['pckForm']} / {k['pckVal']}, isEncrypted {k['encKey']}, signing key in "
+               f"{k['sign']}, certBlock as {k['cb']}, numbers as {k['num']}, commands "
+               f"{[(CMD_NAMES[x['t']], x['form'], x['sub'], 'opt' if x['opt'] else 'no-opt', x['dl']) for x in c['cmds']][:6]}]")
+    return (f"export #{t['k']} of a container{how} (P-{c['curve'] * 8}, {c['nkeys']} root keys, used {c['used']}, isk={c['isk']}, pck={c['pck']}, rights={c['rights']}, "
             f"enc={c['enc']}, {len(t['inp']['cmds'])} commands, history {c.get('hist', ['Export'])}) is not accepted by the loader automaton: "
             f"event #{matched + 1} {json.dumps(ev)[:500]}")
 
@@ -393,6 +417,15 @@ def run(tier):
     bg = ThreadPoolExecutor(max_workers=1)
     mc_job = bg.submit(tlc.mc, "C05", "Sb31RomMC", "Sb31RomMC.cfg", env={"MC_LEVEL": 1 if quick else 2}, require_actions=ACTIONS, heap="8g", timeout=1500,
                        workers=6 if quick else 12)
+    # ---- GEN of the configuration lane (Sb31CfgGen; in the background, joined before the cases are executed)
+    gen_bg = ThreadPoolExecutor(max_workers=2)
+    time.sleep(0.05)  # lib.tlc numbers its scratch directories with an unlocked counter: do not start two runs in the same instant
+    kt_job = gen_bg.submit(tlc.run, "C05", "Sb31CfgGen", "Sb31CfgGen.cfg", env={"GEN_MODE": "tour", "GEN_FULL": 0 if quick else 1, "GEN_MAXCMDS": 0},
+                           workers=1, deadlock=False, heap="4g", timeout=600)
+    time.sleep(0.05)
+    ks_job = gen_bg.submit(tlc.run, "C05", "Sb31CfgGen", "Sb31CfgGen.cfg", env={"GEN_MODE": "sim", "GEN_FULL": 0 if quick else 1, "GEN_MAXCMDS": 6},
+                           workers=1, deadlock=False, heap="4g", timeout=600, simulate=f"num={250 if quick else 4000}", depth=14)
+    time.sleep(0.05)
     # ---- MC of the history I-spec: the intended rule holds (the same run prints the histories, GEN); the rule as built is
     #      PREDICTED to fail (information only - only the R-spec verdict on real bytes counts)
     oi = tlc.mc("C05", "Sb31Obj", "Sb31ObjIntended.cfg", env={"GEN": 1}, require_actions=("Export", "AddCommand"), workers=1)
@@ -420,16 +453,33 @@ def run(tier):
     hcases = [dict(c, hist=h) for h in hists for c in cfgs[: (6 if quick else 60)]]
     say(f"[C05] GEN: {len(tour)} tour cases, {len(sim)} simulated cases, {len(hists)} histories x configurations = {len(hcases)} history cases ({v.timer.s()}s)")
 
+    # ---- configuration lane: cases of Sb31CfgGen (tours + simulation), built by SecureBinary31.load_from_config
+    kt, ks = kt_job.result(), ks_job.result()
+    v.add_mc(kt)
+    ktour, ksim = dedupe(kt.json_prints()), dedupe(ks.json_prints())
+    if len(ktour) < 900 or len(ksim) < (100 if quick else 1500):
+        raise Machinery(f"configuration case GEN produced only {len(ktour)} + {len(ksim)} cases\n{ks.out[-1500:]}")
+    kcases = ktour + ksim
+    kdims = {"pck": sorted({(c["curve"], c["pck"], c["k"]["pckForm"], c["k"]["pckVal"]) for c in kcases if c["enc"]}),
+             "cmd": sorted({(x["t"], x["form"], x["sub"], x["opt"]) for c in kcases for x in c["cmds"]}),
+             "sign": sorted({(c["k"]["sign"], c["k"]["cb"], c["isk"], c["k"]["cbSign"], c["k"]["cbNew"], c["k"]["rootId"]) for c in kcases}),
+             "num": sorted({c["k"]["num"] for c in kcases}), "enc": sorted({c["k"]["encKey"] for c in kcases})}
+    if len(kdims["pck"]) < 50 or len({x[:2] for x in kdims["cmd"]}) < 22 or len(kdims["sign"]) < 40 or len(kdims["num"]) < 4 or len(kdims["enc"]) < 3:
+        raise Machinery(f"configuration case GEN does not cover its dimensions: { {k: len(x) for k, x in kdims.items()} }")
+    say(f"[C05] GEN (configuration lane): {len(ktour)} tour cases, {len(ksim)} simulated cases; {len(kdims['pck'])} key classes (curve x size x form x value), "
+        f"{len(kdims['cmd'])} command shapes, {len(kdims['sign'])} signing / certificate-block shapes ({v.timer.s()}s)")
+
     # ---- run everything on the real code (parallel), executor on every exported file
-    allc = cases + hcases
-    keep = set(r.sample(range(len(cases)), 40 if quick else 160))
+    allc = cases + hcases + kcases
+    keep = set(r.sample(range(len(cases)), 40 if quick else 160)) | {len(cases) + len(hcases) + i for i in r.sample(range(len(kcases)), 6 if quick else 24)}
     res = pmap(lambda ic: execute(plan_of(ic[1]), ic[0], keep_bytes=ic[0] in keep), list(enumerate(allc)), chunksize=32)
     traces = [t for ts in res for t in ts]
     v.count(len(traces))
     for t in traces:
         if len(t["ev"]) > 3:
             v.nontrivial(json.dumps([t["case"], t["k"]], sort_keys=True))
-    say(f"[C05] {len(allc)} cases built through the real classes, {len(traces)} exports walked by the executor ({v.timer.s()}s)")
+    say(f"[C05] {len(cases) + len(hcases)} cases built through the real classes, {len(kcases)} through load_from_config; {len(traces)} exports walked by the executor "
+        f"({v.timer.s()}s)")
     acc = [t for t in traces if t["ev"][-1]["ev"] == "Accept"]
     if len(acc) < len(cases) // 2:
         say(f"[C05] note: only {len(acc)} of {len(traces)} executor runs ended in Accept")
@@ -448,6 +498,24 @@ def run(tier):
         f(b)
         canary.append(b)
 
+    # ---- canary of the configuration lane: a container built from a configuration (preferably with a 128-bit part-common key given as
+    #      hex text) that the loader accepts; the SAME file walked by a loader that holds the key read with the other size (128-bit key
+    #      left-padded to 256 bits / lower half of a 256-bit key = a builder that probed the key size wrongly) must be rejected
+    kacc = sorted((t for t in acc if "k" in t["case"] and t["inp"]["enc"] and t["k"] == 1),
+                  key=lambda t: (t["case"]["pck"] != 128, t["case"]["k"]["pckForm"] not in ("hex", "txt")))
+    kcanary = "no accepted encrypted container of the configuration lane to build a canary from"
+    if kacc:
+        kg = execute(kacc[0]["plan"], "kcanary", keep_bytes=True)[0]
+        if kg.get("file") is not None and kg["ev"][-1]["ev"] == "Accept":
+            key = kg["rom"]["pck"]
+            g = strip(kg)
+            g["id"] = "canary-cfg-good"
+            ev = rom.run(kg["file"], dict(kg["rom"], pck=bytes(16) + key if len(key) == 16 else key[16:]))
+            ev = [dict(e, pckBits=8 * len(key)) if e["ev"] == "DeriveKdk" else e for e in ev]  # only the decrypted content can give it away
+            canary += [g, {"id": "canary-bad-cfg-pck", "inp": kg["inp"], "ev": ev}]
+            kcanary = (f"container built by load_from_config ({8 * len(key)}-bit key as {kg['case']['k']['pckForm']}) accepted, the same file walked with the key "
+                       "read with the other size rejected")
+
     # ---- tamper: single-bit corruptions of files the executor walked to the end must be rejected by the loader's own checks
     kept = [t for t in acc if t.get("file") is not None and t["k"] == 1]
     if len(kept) < 10:
@@ -462,10 +530,10 @@ def run(tier):
 
     # ---- TV: TLC decides everything in one batch (canary first: a monitor that accepts a corrupted trace is machinery failure)
     rej = validate(v, traces, "exports + tampered files", extra=canary + tam)
-    if {t["id"] for t in canary} & set(rej) != {t["id"] for t in canary[1:]}:
+    if {t["id"] for t in canary} & set(rej) != {t["id"] for t in canary if "-bad-" in t["id"]}:
         raise Machinery(f"canary failed: rejected {sorted(x for x in rej if str(x).startswith('canary'))}")
     v.extra["canary"] = ("known-good trace accepted; the same trace with a shifted block position, a changed input command, a false signature fact, "
-                         "a wrong KDF iteration count, a skipped block: all rejected")
+                         "a wrong KDF iteration count, a skipped block: all rejected; configuration lane: " + kcanary)
     v.sample({"case": acc[0]["case"], "export": acc[0]["k"], "events": acc[0]["ev"][:12]})
     v.sample({"case": acc[-1]["case"], "export": acc[-1]["k"], "events": [e for e in acc[-1]["ev"] if e["ev"] in ("Layout", "Block", "Section", "Cmd", "Accept")][:10]})
     n_acc = 0
@@ -495,7 +563,18 @@ def run(tier):
         "+ TLC-simulated random command lists (<= 8 commands) over all configurations + every export history (<= 3 exports, commands added in between) x sampled "
         "configurations; each case is concretised from VERIF_SEED, built through SecureBinary31 / Cmd* / CertBlockV21, exported, and the exported bytes are walked by the "
         "independent executor; TLC decides every trace. non-trivial = executor got beyond the header; distinct by (abstract case, export number). "
+        "Configuration lane (Sb31CfgGen, containers built by SecureBinary31.load_from_config from a configuration dictionary + files of the shape the templates / schemas "
+        "define): tours = part-common key {128, 256 bit} x {inline hex, inline 0x hex, text file, text file with newline, binary file} x {random, first byte zero, upper half "
+        "zero} x P-256 / P-384 x rights x isEncrypted given / omitted; plain with / without a key; signing key in signPrivateKey / mainRootCertPrivateKeyFile / signProvider x "
+        "certBlock as nested configuration / binary x ISK off / on (root key of the nested configuration under each of the three names, new / legacy key names, "
+        "mainRootCertId given / found from the key, user data) x root sets; every command kind of the schema (13; RESET has none) in every form (file / comma separated "
+        "words / one number / one value / legacy `authentication`; plainInput x wrapping key name; every counter name; optional memory ids given / omitted) x every number "
+        "format (int, hex, decimal, 0x1234_5678) and over a payload-length menu; all kinds in one configuration; optional header keys given / omitted; exported once / "
+        "twice; + TLC-simulated combinations of all of these with random command lists (<= 6). Same executor, same R-spec. "
         "Tampering: single-bit flips stratified over all regions of accepted files (thorough: every bit of two whole files).")
+    v.extra["config_lane"] = {"cases": len(kcases), "key_classes": len(kdims["pck"]), "command_shapes": len(kdims["cmd"]), "signing_shapes": len(kdims["sign"]),
+                              "number_formats": kdims["num"], "isEncrypted": kdims["enc"],
+                              "accepted_exports": sum(1 for t in acc if "k" in t["case"]), "exports": sum(1 for t in traces if "k" in t["case"])}
     v.assumptions += [
         "trusted base: struct, hashlib (SHA-256/384), `cryptography` ECDSA verify / AES-CBC decrypt / AES-CMAC called directly by harness/c05_rom.py (never through spsdk.crypto)",
         "frozen-from-source: which of the 14 commands carry the 16-byte extra word block (ERASE, LOAD, LOAD_CMAC, COPY, LOAD_HASH_LOCKING, FILL_MEMORY), the 64 reserved "
@@ -507,7 +586,16 @@ def run(tier):
         "LOAD_KEY_BLOB offset and wrapping-key id fit 16 bits; ISK user data is a multiple of 4 up to 96 bytes (device limits)",
         "content of padding bytes (after data, after the last command, 64-byte tail) is logged but not asserted; the reserved words of the extra word block must be zero",
         "plain (unencrypted) containers are accepted by the model when the loader is told so (test variant; no header bit distinguishes them)",
-        "containers are built through the classes, not through nxpimage / load_from_config (configuration parsing is C19/C20 territory)",
+        "configuration lane: the dictionary is handed to SecureBinary31.load_from_config (what `nxpimage sb31 export` calls after schema validation); YAML reading of the top-level "
+        "file, check_config and the command line are not exercised (C19/C20 territory); the rendered configurations were validated against "
+        "SecureBinary31.get_validation_schemas at development time (all valid except `call`, which is in sch_sb31.yaml but in no family's supported_commands)",
+        "configuration lane, frozen-from-source (anchors/C05/config_shape.json): key names of the configuration, wrapping-key ids per family (mcxn947: 18/19, lpc55s36: 16/17), "
+        "counter ids of checkFwVersion; an omitted optional memoryId / memoryIdFrom / memoryIdTo means 0; `value` is one number of exactly 4 or 8 bytes (most significant byte "
+        "non-zero) written little endian; `values` are 32-bit little-endian words",
+        "configuration lane, outside the asserted domain (documentation does not settle them): RESET (no schema entry), `values: 0` / `value: 0` as a bare number, a `value` "
+        "whose byte length is not 4 or 8, a binary key file whose content is readable as text, a missing timestamp ('now'), missing firmwareVersion / kdkAccessRights "
+        "(undocumented defaults), the certificate-block keys given inline in the container configuration (legacy, not in the sb31 schema), signature providers other than "
+        "type=file",
     ]
     return v.finish()
 
